@@ -28,7 +28,7 @@ contract(f"{VIC}.__post_init__", setup=setup_vic,
     ensures={"accepted_implies_domain": lambda c, q: c.dom})
 
 SC = "mdpax.core.solver.Solver._setup_config"
-def setup_cfg(route):
+def setup_cfg(route, double=True):
     def setup(I):
         from contracts.spec_mdp import ProblemStub
         vimod = I.load_module("mdpax.solvers.value_iteration").globals
@@ -37,7 +37,7 @@ def setup_cfg(route):
         pcfg = Obj(pcfg_cls, dict(_target_="mdpax.problems.forest.Forest", S=z3.Int("S"), r1=4.0, r2=2.0, p=z3.Real("p")), label="problem_config")
         g, e = z3.Real("gamma"), z3.Real("epsilon")
         I.assume(z3.And(g >= 0, g <= 1, e > 0))
-        cfg = Obj(cfgcls, dict(_target_="t", problem=pcfg if route == "config_only" else None, gamma=g, epsilon=e, max_batch_size=z3.Int("mbs"), jax_double_precision=True,
+        cfg = Obj(cfgcls, dict(_target_="t", problem=pcfg if route == "config_only" else None, gamma=g, epsilon=e, max_batch_size=z3.Int("mbs"), jax_double_precision=double,
                                verbose=2, checkpoint_dir=None, checkpoint_frequency=0, max_checkpoints=1, enable_async_checkpointing=True, convergence_test="span"), label="config")
         s = Obj(cls, {}, label="solver")
         P = ProblemStub(I); P.obj.attrs["config"] = pcfg
@@ -47,15 +47,17 @@ def setup_cfg(route):
         I.ghost["instantiate"] = inst
         if route == "config_only": args = [None, cfg]
         else: args = [P.obj, cfg]
-        return Ctx(self=s, _args=args, cfg=cfg, pcfg=pcfg, route=route, P=P, calls=calls, I=I)
+        I.ghost["jax_enable_x64"] = "as-before"          # the process-global flag before this constructor (possibly switched on by an earlier solver)
+        return Ctx(self=s, _args=args, cfg=cfg, pcfg=pcfg, route=route, P=P, calls=calls, I=I, double=double)
     return setup
-contract(SC, scenarios=[("instance.", setup_cfg("instance")), ("config_only.", setup_cfg("config_only"))],
+contract(SC, scenarios=[("instance.", setup_cfg("instance")), ("config_only.", setup_cfg("config_only")), ("instance_single_precision.", setup_cfg("instance", double=False))],
     ensures={"problem_set": lambda c, q: z3.BoolVal(c.self.attrs.get("problem") is c.P.obj),
              "problem_config_captured": lambda c, q: z3.BoolVal(c.self.attrs["config"].attrs["problem"] is c.pcfg),
              "instantiated_from_embedded_config_iff_no_instance": lambda c, q: z3.BoolVal((c.calls == [c.pcfg]) if c.route == "config_only" else (c.calls == [])),
              "core_attributes": lambda c, q: z3.And(toz3(c.self.attrs["gamma"]) == toz3(c.cfg.attrs["gamma"]), toz3(c.self.attrs["epsilon"]) == toz3(c.cfg.attrs["epsilon"]),
                                                     toz3(c.self.attrs["max_batch_size"]) == toz3(c.cfg.attrs["max_batch_size"])),
-             "x64_enabled_when_requested": lambda c, q: z3.BoolVal(c.I.ghost.get("jax_enable_x64") is True),
+             # 64-bit mode is process-global: it is switched on when double precision is requested and NEVER switched off (another solver may rely on it)
+             "x64_enabled_when_requested_never_disabled": lambda c, q: z3.BoolVal((c.I.ghost.get("jax_enable_x64") is True) if c.double else (c.I.ghost.get("jax_enable_x64") == "as-before")),
              "verbosity_stored": lambda c, q: z3.BoolVal(c.self.attrs.get("verbose") == 2)})
 
 # ---- _setup_convergence_testing (C08 threshold, C20 gamma boundary, format)
